@@ -5,6 +5,7 @@ C10 — Gzip transparency and integrity. The glue of go/gzip/gzip.go around comp
 import OAP.Model.Frame
 import OAP.Proofs.Frame
 import OAP.Model.PoolGzip
+import OAP.Proofs.Inflate
 namespace OAP.C10
 open OAP OAP.Frame
 
@@ -329,5 +330,43 @@ theorem pool_source :
     Gen.stmts_gzip_SetLevel = ["if level < gzip.DefaultCompression || level > gzip.BestCompression { return fmt.Errorf(\"grpc: invalid gzip compression level: %d\", level) }", "defaultCompressor.poolCompressor.New = func() interface{} { w, err := gzip.NewWriterLevel(ioutil.Discard, level) if err != nil { panic(err) } return &writer{Writer: w, pool: &defaultCompressor.poolCompressor} }", "return nil"] ∧
     Gen.stmts_gzip_init = ["defaultCompressor = &compressor{}", "defaultCompressor.poolCompressor.New = func() interface{} { return &writer{Writer: gzip.NewWriter(ioutil.Discard), pool: &defaultCompressor.poolCompressor} }"] :=
   ⟨rfl, rfl, rfl, rfl, rfl, rfl, rfl, rfl⟩
+
+/-! ### the oracle made concrete: a native gzip (round 2; `Model/Inflate.lean`, `Proofs/Inflate.lean`)
+
+Every theorem above takes compress/gzip as a parameter `gz : GzOracle` and, where it needs it, the hypothesis `gz.Sound`. Here the
+parameter is INSTANTIATED by code written in Lean: `Inflate.gunzip` — the RFC 1952 container as Go's reader accepts it (magic, CM,
+flag bits, FEXTRA/FNAME/FCOMMENT/FHCRC, multistream as the library's `Decompress` uses it), the RFC 1951 inflater (stored, fixed and
+dynamic Huffman blocks with Go's acceptance rules for incomplete and over-subscribed codes) and CRC-32 — and `Inflate.storedGzip`, a
+compressor emitting stored blocks. So `gz.Sound` is satisfiable by an actual gzip implementation (not only by the identity), the
+expansion bound C04 relies on is a theorem of that implementation, and the harness compares the REAL `Decompress` with this reader on
+every stream of the C10/C04 batches (`gunzip hex=…` lines: valid, truncated at every byte, corrupted, multi-member, hostile trailers). -/
+
+/-- the native gzip is a sound oracle: reading what its compressor produced yields the input, whole and valid — for every input -/
+theorem native_oracle_sound : Inflate.nativeGz.Sound := Inflate.nativeGz_sound
+
+/-- hence Compress ∘ Decompress = id holds outright for the native gzip, no hypothesis left -/
+theorem decompress_compress_native (x : Bytes) :
+    Gzip.decompress Inflate.nativeGz (Inflate.storedGzip x) = .ok x := by
+  obtain ⟨c, h1, h2⟩ := decompress_compress Inflate.nativeGz Inflate.nativeGz_sound x
+  have : c = Inflate.storedGzip x := by
+    have := h1; simp [Inflate.nativeGz] at this; exact this.symm
+  rw [← this]; exact h2
+
+/-- what the native reader accepts it returns in full, and its output is at most 1032 × the input (DEFLATE's maximum
+expansion): the bound `alloc_gzip` and C04's allocation check assume of the library is a THEOREM of this implementation — for
+every byte string, all members of a multi-member stream, and the prefix produced before an error included -/
+theorem native_decompress_bounded (bs out : Bytes) (h : Gzip.decompress Inflate.nativeGz bs = .ok out) :
+    out.length ≤ bs.length * Gzip.maxExpansion :=
+  Inflate.nativeGz_decompress_bound h
+
+/-- first-member reading (`Multistream(false)`) of a native stream followed by anything yields the member's content -/
+theorem native_first_member (x rest : Bytes) : Inflate.gunzipFirst (Inflate.storedGzip x ++ rest) = some (x, true) :=
+  Inflate.gunzipFirst_storedGzip x rest
+
+/-- non-vacuity: concrete streams through the native reader -/
+example : Inflate.gunzip (Inflate.storedGzip [104, 105]) = some ([104, 105], true) := by decide +kernel
+example : Inflate.gunzip [0x1f, 0x8b, 8, 0] = none := by decide +kernel
+example : Inflate.gunzip [0x1f, 0x8c, 8, 0, 0, 0, 0, 0, 0, 0xff, 1, 0, 0, 0xff, 0xff, 0, 0, 0, 0, 0, 0, 0, 0] = none := by decide +kernel
+example : Inflate.gunzip [0x1f, 0x8b, 8, 0, 0, 0, 0, 0, 0, 0xff, 1, 0, 0, 0xff, 0xff, 0, 0, 0, 0, 0, 0, 0, 0] = some ([], true) := by decide +kernel
 
 end OAP.C10
